@@ -1,6 +1,6 @@
 (* C03 - DIDs are self-certifying: suffix = hash(suffix data), delta bound by hash. *)
 From Coq Require Import ZArith NArith String List Bool.
-From Sidetree Require Import Base.Sha2 Json.Json Json.Jcs Json.JcsProps Json.JcsRoundTrip Sidetree.Protocol Sidetree.Hashing Sidetree.Parser Sidetree.Binding.
+From Sidetree Require Import Base.Sha2 Json.Json Json.Jcs Json.JcsProps Json.JcsRoundTrip Sidetree.Protocol Sidetree.Hashing Sidetree.Parser Sidetree.Binding Sidetree.JequivDecode Sidetree.ValidatorJequiv Sidetree.Respell.
 Import ListNotations.
 Open Scope string_scope.
 
@@ -45,3 +45,53 @@ Theorem C03_multihash_binds : forall v w a s, calc_mh v a = Some s -> calc_mh w 
   jequiv v w \/ exists code, collision code v w.
 Proof. exact calc_mh_binds. Qed.
 Print Assumptions C03_multihash_binds.
+
+(* "The same request denotes the same DID whatever its JSON member order": two spellings of one
+   create request that differ in member order at any depth, both within the size limit, get
+   the same verdict and, when accepted, the same type, suffix and DID (and an equivalent anchor
+   origin).  Side conditions: canonical number tokens (wfnum), no object with a name twice (ndk),
+   no two names equal up to ASCII case at the three levels decoded into structs (struct_levels),
+   an anchor origin validator that cannot see member order.  Whitespace and escape spellings are
+   the JSON parser's business: decided by correspondence (respelled variants). *)
+Theorem C03_same_request_same_did : forall cfg u n o t,
+  (forall a b, jequiv a b -> o a = o b) ->
+  forall ns b b' m m',
+  (Z.of_nat (String.length b) <= P_MaxOperationSize cfg)%Z ->
+  (Z.of_nat (String.length b') <= P_MaxOperationSize cfg)%Z ->
+  top_object b = Some m -> top_object b' = Some m' ->
+  jequiv (JObj m) (JObj m') -> wfnum (JObj m) -> ndk (JObj m) -> struct_levels m ->
+  dec_string (field "type" m) = Some "create" ->
+  match parse cfg u n o t ns b, parse cfg u n o t ns b' with
+  | Some (ty, sfx, id, og), Some (ty', sfx', id', og') => ty = ty' /\ sfx = sfx' /\ id = id' /\ jequiv og og'
+  | None, None => True
+  | _, _ => False
+  end.
+Proof. exact same_request_same_did. Qed.
+Print Assumptions C03_same_request_same_did.
+
+(* the same on decoded requests, batch mode included, with suffix data and delta related *)
+Theorem C03_parse_create_member_order : forall cfg u n o,
+  (forall a b, jequiv a b -> o a = o b) ->
+  forall m m' batch,
+  jequiv (JObj m) (JObj m') -> wfnum (JObj m) -> ndk (JObj m) -> struct_levels m ->
+  match parse_create cfg u n o m batch, parse_create cfg u n o m' batch with
+  | Some p, Some p' => parsed_rel p p'
+  | None, None => True
+  | _, _ => False
+  end.
+Proof. exact parse_create_member_order. Qed.
+Print Assumptions C03_parse_create_member_order.
+
+(* The side condition on names equal up to case cannot be dropped: with "recoveryCommitment" and
+   "RecoveryCommitment" in the suffix data, the two member orders are both accepted - with
+   different suffixes.  Replayed on the implementation the two requests give two DIDs: the
+   listed finding of C03 (known_findings.json, case-variant member names). *)
+Theorem C03_member_order_with_case_variant_names_refuted :
+  exists m m', jequiv (JObj m) (JObj m') /\ wfnum (JObj m) /\ ndk (JObj m) /\
+    match parse_create ex_cfg (fun _ => true) (fun s => Some s) (fun _ => true) m true,
+          parse_create ex_cfg (fun _ => true) (fun s => Some s) (fun _ => true) m' true with
+    | Some p, Some p' => p_suffix p <> p_suffix p'
+    | _, _ => False
+    end.
+Proof. exact member_order_matters_refuted. Qed.
+Print Assumptions C03_member_order_with_case_variant_names_refuted.
